@@ -112,5 +112,11 @@ Example C19_nonvacuous :
   (* ( [ 1_U8 ] x ) under ruint::uint! *)
   wfb (tree 8 0 [[0;0]; [0;1]; [2;49;95;85;56]; [1]; [3;120]; [1]]) = true /\
   run (tree 8 0 [[0;0]; [0;1]; [2;49;95;85;56]; [1]; [3;120]; [1]])
-    = Val [TZ 10; TZ 11; TY [36;99;114;97;116;101]; TZ 30; TZ 8; TZ 1; TL [1]; TZ 20; TY [120]; TZ 20].
+    = Val [TZ 10; TZ 11; TY [36;99;114;97;116;101]; TZ 30; TZ 8; TZ 1; TL [1]; TZ 20; TY [120]; TZ 20] /\
+  (* a None-delimited group (macro_rules expression fragment) is a nesting level too:
+     show ( <None> 0x1_B8 </None> ) and the same literal forwarded in expression position *)
+  wfb (tree 8 0 [[3;115;104;111;119]; [0;0]; [0;3]; [2;48;120;49;95;66;56]; [1]; [1]]) = true /\
+  run (tree 8 0 [[3;115;104;111;119]; [0;0]; [0;3]; [2;48;120;49;95;66;56]; [1]; [1]])
+    = Val [TY [115;104;111;119]; TZ 10; TY [36;99;114;97;116;101]; TZ 31; TZ 8; TZ 1; TL [1]; TZ 20] /\
+  run (fwd 8 0 [48;120;49;95;66;56]) = Val [TZ 1; TZ 8; TZ 1; TL [1]].
 Proof. repeat split; vm_compute; reflexivity. Qed.
